@@ -38,9 +38,13 @@ def rule_TR1(rep, prog, ex, q, ts):
             continue
         rep.saw(t.fn)
         if t.kind == "store":
-            ok = (t.fn.name in PLAIN_STORE_OK or t.origin in PLAIN_STORE_OK) and t.order == "na" or t.order != "na"
-            rep.require(r2, ok, t.where, t.fn.name, "plain-store:%s" % t.origin,
-                        "non-atomic store to dq_state in %s which is not a classified constructor/destructor" % t.fn.name)
+            # a store - atomic or not - overwrites whatever another thread changed since the value was read (a concurrent suspend / resume, DIRTY,
+            # ENQUEUED, a width reservation ...): on a published object dq_state is only ever changed by atomic read-modify-write operations
+            ok = t.fn.name in PLAIN_STORE_OK or t.origin in PLAIN_STORE_OK
+            rep.classified(r2, t.origin, ok, t.where, t.fn.name, "plain-store:%s" % t.origin,
+                           "store (%s) to dq_state in %s, which is not a constructor / destructor: the update is not a read-modify-write, so a concurrent "
+                           "transition of the state word (suspend, resume, wakeup, width) that lands between the read and the store is lost"
+                           % ("atomic " + t.order if t.order != "na" else "plain", t.fn.name))
             continue
         if not is_unlock(q, t):
             continue
